@@ -79,6 +79,30 @@ func genTags(r *kit.Rand, n int) string {
 	return list(t, ",")
 }
 
+// mergeTags adds the tags of extra whose keys are not in base (base wins), keeping the keys sorted.
+func mergeTags(base, extra string) string {
+	m := map[string]string{}
+	for _, part := range []string{extra, base} {
+		if part == "-" {
+			continue
+		}
+		for _, kv := range strings.Split(part, ",") {
+			p := strings.SplitN(kv, "=", 2)
+			m[un(p[0])] = p[1]
+		}
+	}
+	keys := make([]string, 0, len(m))
+	for k := range m {
+		keys = append(keys, k)
+	}
+	sort.Strings(keys)
+	var out []string
+	for _, k := range keys {
+		out = append(out, kit.Esc(k)+"="+m[k])
+	}
+	return list(out, ",")
+}
+
 // kinds: bit set of allowed field kinds (1 float, 2 int, 4 string, 8 bool)
 func genFields(r *kit.Rand, n int, kinds int) string {
 	var allowed []int
@@ -247,8 +271,8 @@ func genBatch(r *kit.Rand, i int, tier string) []string {
 				firstT, haveFirst = last, true
 			}
 			ptags := btags
-			if btags != "-" && r.Chance(1, 3) { // extra (non-group) tags on the point
-				ptags = btags // keep group tags; extra tags only when keys stay sorted & distinct
+			if r.Chance(1, 3) { // extra (non-group) tags on the point: the batch is grouped by a subset of the tags
+				ptags = mergeTags(btags, genTags(r, r.Range(1, 2)))
 			}
 			if (kind == 9 || kind == 3) && r.Chance(1, 2) {
 				ptags = "-" // tagless point in a (possibly tagged) batch
